@@ -261,6 +261,39 @@ with wf_args (a : args) : Prop :=
 
 End Wf.
 
+(* the shape of argument lists: the args / arglist / incomplete_arglist / named_arglist
+   grammar of parser.py as a condition on the slots - positional slots (values and empty
+   slots) first, then named ones; the positional part ends with a value, or with
+   `value, <empty>` when a named argument follows ([sstate] tracks this) *)
+Fixpoint all_named (a : args) : Prop :=
+  match a with
+  | ANil => True
+  | ANamed _ _ r => all_named r
+  | _ => False
+  end.
+Fixpoint shape_from (st : sstate) (a : args) : Prop :=
+  match a with
+  | ANil => st = S0
+  | AEmpty r => shape_from (after_empty st) r
+  | AVal _ r => match r with ANil => True | _ => shape_from SV r end
+  | ANamed _ _ r => named_ok st = true /\ all_named r
+  end.
+Fixpoint shaped (t : tree) : Prop :=
+  match t with
+  | Atom _ => True
+  | Un _ y | Suf _ y | Wrap y => shaped y
+  | Bin _ l r => shaped l /\ shaped r
+  | Index x a => shaped x /\ shape_from S0 a /\ shaped_args a
+  | ListE a | MapE a | Call _ a => shape_from S0 a /\ shaped_args a
+  end
+with shaped_args (a : args) : Prop :=
+  match a with
+  | ANil => True
+  | AEmpty r => shaped_args r
+  | AVal x r => shaped x /\ shaped_args r
+  | ANamed k v r => shaped k /\ shaped v /\ shaped_args r
+  end.
+
 (* the core fragment: atoms, prefix and binary operators, parentheses *)
 Fixpoint core (x : tree) : Prop :=
   match x with
